@@ -178,8 +178,14 @@ class Neo4jCBMGraph(Neo4jPropertyGraph, ABCCBMPropertyGraph):
         # temporary ADM graph (after that it ceases to exist)
         # NOTE: this takes advantage of Neo4j semantics of common store for all graphs
         # and changing the GraphID property effectively makes graph takes on a new identity
-        temp_adm_graph.update_nodes_property(prop_name=ABCPropertyGraphConstants.GRAPH_ID,
-                                             prop_val=self.graph_id)
+        # (nothing remains when every node of the ADM was already present in the CBM)
+        try:
+            remaining_node_ids = temp_adm_graph.list_all_node_ids()
+        except PropertyGraphQueryException:
+            remaining_node_ids = list()
+        if len(remaining_node_ids) > 0:
+            temp_adm_graph.update_nodes_property(prop_name=ABCPropertyGraphConstants.GRAPH_ID,
+                                                 prop_val=self.graph_id)
 
     def unmerge_adm(self, *, graph_id: str) -> None:
         # Search ADMGraphIDs property and remove those nodes where it is the only
